@@ -145,6 +145,8 @@ Proof.
   - inversion H. constructor.
   - destruct (is_num term) eqn:Hnum.
     + destruct (Z.leb (num_val term) max_int32); [|discriminate].
+      destruct doc as [| | | | |l|]; try discriminate.
+      destruct (nth_error l (Z.to_nat (num_val term))) as [x|]; [|discriminate].
       apply bind_ok in H. destruct H as [more [Hm H]]. inversion H; subst p.
       constructor; [left; auto | eapply IH; eauto].
     + apply bind_ok in H. destruct H as [m [Hobj H]].
@@ -182,6 +184,8 @@ Proof.
     apply bind_ok in H. destruct H as [G2 [_ H]]. rewrite (Hun G2) in H. discriminate.
   - destruct (is_num a).
     + destruct (Z.leb (num_val a) max_int32); [|discriminate].
+      destruct doc as [| | | | |l|]; try discriminate.
+      destruct (nth_error l (Z.to_nat (num_val a))) as [x|]; [|discriminate].
       apply bind_ok in H. destruct H as [more [Hm _]]. eapply IH; eauto.
     + apply bind_ok in H. destruct H as [m [_ H]].
       apply bind_ok in H. destruct H as [G2 [_ H]].
@@ -318,7 +322,9 @@ Fixpoint transparent (ld : loader) (pi : list string) (G : ctx) (doc : json) (ac
   match pi with
   | [] => True
   | term :: rest =>
-      if is_num term then transparent ld rest G doc true
+      if is_num term then
+        forall l x, doc = JArr l -> nth_error l (Z.to_nat (num_val term)) = Some x ->
+                    transparent ld rest G x false
       else forall m G2, resolver_object doc acc = Ok m -> resolver_enter ld G m = Ok G2 ->
            c_terms G2 = c_terms G /\
            forall d G3, term_def G2 term = Some d ->
@@ -333,8 +339,10 @@ Proof.
   - exact H.
   - destruct (is_num term) eqn:Hnum.
     + destruct (Z.leb (num_val term) max_int32); [|discriminate].
+      destruct doc as [| | | | |l|]; try discriminate.
+      destruct (nth_error l (Z.to_nat (num_val term))) as [x|] eqn:Hnth; [|discriminate].
       apply bind_ok in H. destruct H as [more [Hm H]]. inversion H; subst p.
-      rewrite (IH G doc true more Hm Htr). reflexivity.
+      rewrite (IH G x false more Hm (Htr l x eq_refl Hnth)). reflexivity.
     + apply bind_ok in H. destruct H as [m [Hobj H]].
       apply bind_ok in H. destruct H as [G2 [HG2 H]].
       destruct (Htr m G2 Hobj HG2) as [Heq Hnext].
@@ -726,48 +734,53 @@ Proof.
   - apply no_fact_at_spec. exact d8_nothing_stored.
 Qed.
 
-(* D14: numeric segments are not checked against the document *)
+(* D14 (fixed by 8c11b39): a numeric segment selects a member of the array found at that
+   position of the document; anything else is an error; the walk continues in that member *)
+Theorem numeric_segment_selects_member : forall ld i rest G doc acc p,
+  is_num i = true ->
+  pfd ld (i :: rest) G doc acc = Ok p ->
+  exists l x more, doc = JArr l /\ nth_error l (Z.to_nat (num_val i)) = Some x /\
+                   pfd ld rest G x false = Ok more /\ p = PInt (num_val i) :: more.
+Proof.
+  intros ld i rest G doc acc p Hn H. simpl in H. rewrite Hn in H.
+  destruct (Z.leb (num_val i) max_int32); [|discriminate].
+  destruct doc as [| | | | |l|]; try discriminate.
+  destruct (nth_error l (Z.to_nat (num_val i))) as [x|] eqn:Hnth; [|discriminate].
+  apply bind_ok in H. destruct H as [more [Hm H]]. inversion H.
+  exists l, x, more. auto.
+Qed.
+
+Theorem numeric_segment_errors : forall ld i rest G doc acc,
+  is_num i = true ->
+  (forall l, doc <> JArr l) \/ (exists l, doc = JArr l /\ nth_error l (Z.to_nat (num_val i)) = None) ->
+  exists t, pfd ld (i :: rest) G doc acc = Err t.
+Proof.
+  intros ld i rest G doc acc Hn H. simpl. rewrite Hn.
+  destruct (Z.leb (num_val i) max_int32); [|eauto].
+  destruct H as [H|[l [E Hnth]]].
+  - destruct doc as [| | | | |l|]; eauto. exfalso. apply (H l). reflexivity.
+  - subst doc. rewrite Hnth. eauto.
+Qed.
+
 Definition d14_doc : json :=
   JObj [("@context", JObj [("p", JStr "http://e/p"); ("name", JStr "http://e/name")]);
         ("p", JArr [JStr "a"; JStr "b"]);
         ("name", JStr "x")].
 
-Example d14_out_of_range : path_from_document [] d14_doc ["p"; "5"] = Ok [PStr "http://e/p"; PInt 5].
+(* the former D14 witnesses are errors now *)
+Example d14_out_of_range : path_from_document [] d14_doc ["p"; "5"] = Err "index-out-of-range".
 Proof. vm_compute. reflexivity. Qed.
-Example d14_on_scalar : path_from_document [] d14_doc ["name"; "0"] = Ok [PStr "http://e/name"; PInt 0].
+Example d14_on_scalar : path_from_document [] d14_doc ["name"; "0"] = Err "not-an-array".
 Proof. vm_compute. reflexivity. Qed.
-Example d14_into_string : path_from_document [] d14_doc ["name"; "0"; "1"] = Ok [PStr "http://e/name"; PInt 0; PInt 1].
+Example d14_into_string : path_from_document [] d14_doc ["name"; "0"; "1"] = Err "not-an-array".
 Proof. vm_compute. reflexivity. Qed.
-Example d14_in_range_ok : doc_field [] d14_doc ["p"; "1"]
+Example d14_in_range_ok :
+  path_from_document [] d14_doc ["p"; "1"] = Ok [PStr "http://e/p"; PInt 1] /\
+  doc_field [] d14_doc ["p"; "1"]
    = Ok ([PStr "http://e/p"; PInt 1], "http://www.w3.org/2001/XMLSchema#string", JStr "b").
-Proof. vm_compute. reflexivity. Qed.
+Proof. split; vm_compute; reflexivity. Qed.
 
-Theorem numeric_segment_refuted :
-  exists ld doc pi p,
-    path_from_document ld doc pi = Ok p /\
-    (exists t, doc_field ld doc pi = Err t) /\
-    (exists fs, facts ld doc = Ok fs /\ forall f, In f fs -> f_path f <> p).
-Proof.
-  exists [], d14_doc, ["p"; "5"], [PStr "http://e/p"; PInt 5].
-  split; [exact d14_out_of_range|]. split.
-  - exists "index-out-of-range". vm_compute. reflexivity.
-  - apply no_fact_at_spec. vm_compute. reflexivity.
-Qed.
-
-Theorem numeric_segment_on_scalar_refuted :
-  exists ld doc pi p,
-    path_from_document ld doc pi = Ok p /\
-    (exists t, doc_field ld doc pi = Err t) /\
-    (exists fs, facts ld doc = Ok fs /\ forall f, In f fs -> f_path f <> p).
-Proof.
-  exists [], d14_doc, ["name"; "0"], [PStr "http://e/name"; PInt 0].
-  split; [exact d14_on_scalar|]. split.
-  - exists "index-on-non-array". vm_compute. reflexivity.
-  - apply no_fact_at_spec. vm_compute. reflexivity.
-Qed.
-
-(* the walk continues in member 0 whatever the numeric segment says: members of
-   different types resolve to the path of member 0 *)
+(* members of different types: the selected member decides (former member-0 witness) *)
 Definition member0_doc : json :=
   JObj [("@context", JObj [("items", JStr "http://e/items");
                            ("A", JObj [("@id", JStr "http://e/A"); ("@context", JObj [("q", JStr "http://e/qA")])]);
@@ -775,15 +788,38 @@ Definition member0_doc : json :=
         ("items", JArr [JObj [("@type", JStr "A"); ("q", JStr "x")];
                         JObj [("@type", JStr "B"); ("q", JStr "y")]])].
 
-Theorem array_member_refuted :
+Example member_selected :
+  path_from_document [] member0_doc ["items"; "1"; "q"] = Ok [PStr "http://e/items"; PInt 1; PStr "http://e/qB"] /\
+  doc_field [] member0_doc ["items"; "1"; "q"]
+    = Ok ([PStr "http://e/items"; PInt 1; PStr "http://e/qB"], "http://www.w3.org/2001/XMLSchema#string", JStr "y").
+Proof. split; vm_compute; reflexivity. Qed.
+
+(* still refuted (D31, known finding): a multi-member array addressed without its index *)
+Theorem missing_index_refuted :
   exists ld doc pi p,
     path_from_document ld doc pi = Ok p /\
-    (exists p' dt v, doc_field ld doc pi = Ok (p', dt, v) /\ p' <> p) /\
+    (exists t, doc_field ld doc pi = Err t) /\
     (exists fs, facts ld doc = Ok fs /\ forall f, In f fs -> f_path f <> p).
 Proof.
-  exists [], member0_doc, ["items"; "1"; "q"], [PStr "http://e/items"; PInt 1; PStr "http://e/qA"].
+  exists [], d14_doc, ["p"], [PStr "http://e/p"].
   split; [vm_compute; reflexivity|]. split.
-  - exists [PStr "http://e/items"; PInt 1; PStr "http://e/qB"], "http://www.w3.org/2001/XMLSchema#string", (JStr "y").
-    split; [vm_compute; reflexivity|]. intro H. inversion H.
+  - exists "index-required". vm_compute. reflexivity.
+  - apply no_fact_at_spec. vm_compute. reflexivity.
+Qed.
+
+(* still refuted: index 0 on a one-member array of the source document (the stored entry
+   carries no index) *)
+Definition single_doc : json :=
+  JObj [("@context", JObj [("p", JStr "http://e/p")]); ("p", JArr [JStr "a"])].
+
+Theorem single_member_index_refuted :
+  exists ld doc pi p,
+    path_from_document ld doc pi = Ok p /\
+    (exists t, doc_field ld doc pi = Err t) /\
+    (exists fs, facts ld doc = Ok fs /\ forall f, In f fs -> f_path f <> p).
+Proof.
+  exists [], single_doc, ["p"; "0"], [PStr "http://e/p"; PInt 0].
+  split; [vm_compute; reflexivity|]. split.
+  - exists "index-on-single-member". vm_compute. reflexivity.
   - apply no_fact_at_spec. vm_compute. reflexivity.
 Qed.
